@@ -59,8 +59,10 @@ type LintConfig struct {
 
 // Lint lints file
 func Lint(stream io.Reader, lc LintConfig) error {
+	errorsFound := 0
 	err := parser.ParseStreamCallback(stream, lc.ParserConfig, func(node *shared.ParserNode, err error) (stop bool, cbError error) {
 		if err != nil {
+			errorsFound++
 			if _, werr := fmt.Fprintln(lc.ReporterConfig.Output, err); werr != nil {
 				return true, werr
 			}
@@ -70,7 +72,7 @@ func Lint(stream io.Reader, lc LintConfig) error {
 	if err != nil {
 		return err
 	}
-	if !lc.Silent {
+	if !lc.Silent && errorsFound == 0 {
 		_, err = fmt.Fprintln(lc.ReporterConfig.Output, "No errors found")
 	}
 	return err
